@@ -108,7 +108,16 @@ class Obs:
             self.v('foreign_card', name, f'{foreign} not of the deck {where}')
         if nunknown:
             self.unknown_seen = True
-        if not self.unknown_seen:
+        # Placeholders the *harness* deals ('??' named by the interpreter,
+        # cfg['unknown']) stand for cards nobody has seen, so the known
+        # cards are then only a part of the deck.  Without them the only
+        # placeholders are the ones the engine itself writes over the part
+        # of a hand that was not tabled at the final showdown - the cards
+        # behind them go back to the deck, and every card of the deck is
+        # still somewhere.
+        if not self.unknown_seen or not self.cfg.get('unknown'):
+            if nunknown:
+                self.flags.add('engine_written_placeholders')
             if cnt != self.deck:
                 missing = list((self.deck - cnt).elements())
                 extra = list((cnt - self.deck).elements())
